@@ -272,6 +272,40 @@ SPECS_FILT = [
          state=["self_sources"], selfattrs={"sources": ("self_sources", "L:TL")},
          text_exprs={"_flatten_sources(sources, Intersection)":
                      ("(g_flatten_sources is_intersection tl_sources sources)", "L:TL")}),
+    # the constructors that only store their arguments: the attributes they store (state variables, R6)
+    dict(name="g_operator_init", file=PROPS, cls="Operator", func="__init__", kind="proc",
+         tyvars=["PROP", "VAL"], types=BASE_TYPES,
+         annotations={"'Property[IvlIn] | Any'": "OPND", "Callable[[Any, Any], bool]": "OPF"},
+         params=[("self_left", "OPND"), ("self_right", "OPND"), ("self_operator", "OPF"),
+                 ("left", "OPND"), ("right", "OPND"), ("operator", "OPF")],
+         state=["self_left", "self_right", "self_operator"],
+         selfattrs={"left": ("self_left", "OPND"), "right": ("self_right", "OPND"),
+                    "operator": ("self_operator", "OPF")}),
+    dict(name="g_or_init", file=CORE, cls="Or", func="__init__", kind="proc", filt_ext=True, star_param="filters",
+         tyvars=["FILT"], types=TLT, annotations={"tuple[Filter[IvlIn], ...]": "L:FILT"},
+         params=[("self_filters", "L:FILT"), ("filters", "L:FILT")], state=["self_filters"],
+         selfattrs={"filters": ("self_filters", "L:FILT")},
+         effects={"super().__init__": dict(var=None, args=[])}),
+    dict(name="g_and_init", file=CORE, cls="And", func="__init__", kind="proc", filt_ext=True, star_param="filters",
+         tyvars=["FILT"], types=TLT, annotations={"tuple[Filter[IvlIn], ...]": "L:FILT"},
+         params=[("self_filters", "L:FILT"), ("filters", "L:FILT")], state=["self_filters"],
+         selfattrs={"filters": ("self_filters", "L:FILT")},
+         effects={"super().__init__": dict(var=None, args=[])}),
+    dict(name="g_filtered_init", file=CORE, cls="Filtered", func="__init__", kind="proc",
+         tyvars=["TL", "FILT"], types=TLT, annotations={"Timeline[IvlOut]": "TL", "Filter[IvlOut]": "FILT"},
+         params=[("self_source", "TL"), ("self_filter", "FILT"), ("source", "TL"), ("filter", "FILT")],
+         state=["self_source", "self_filter"],
+         selfattrs={"source": ("self_source", "TL"), "filter": ("self_filter", "FILT")}),
+    dict(name="g_difference_init", file=CORE, cls="Difference", func="__init__", kind="proc", filt_ext=True,
+         star_param="subtractors", tyvars=["TL"], types={"TL": "TL"},
+         annotations={"Timeline[IvlOut]": "TL", "tuple[Timeline[Any], ...]": "L:TL"},
+         params=[("self_source", "TL"), ("self_subtractors", "L:TL"), ("source", "TL"), ("subtractors", "L:TL")],
+         state=["self_source", "self_subtractors"],
+         selfattrs={"source": ("self_source", "TL"), "subtractors": ("self_subtractors", "L:TL")}),
+    dict(name="g_complement_init", file=CORE, cls="Complement", func="__init__", kind="proc",
+         tyvars=["TL"], types={"TL": "TL"}, annotations={"Timeline[Any]": "TL"},
+         params=[("self_source", "TL"), ("source", "TL")], state=["self_source"],
+         selfattrs={"source": ("self_source", "TL")}),
     # _is_mask of every node class of core.py
     dict(name="g_is_mask_base", file=CORE, cls="Timeline", func="_is_mask", kind="expr", ret="B", params=[]),
     dict(name="g_is_mask_solid", file=CORE, cls="_SolidTimeline", func="_is_mask", kind="expr", ret="B", params=[]),
